@@ -18,6 +18,12 @@ def C12ex.cfg : Cfg := { lim := Lim.gen, crc := fun _ => 0, maxCache := 1, maxLo
 theorem gen_limits_ok : Lim.gen.OK := by
   constructor <;> decide
 
+/-- **Gen obligation** (shape of `load`): the torn-tail offset `goodEnd` is taken from the stream position right after a record's
+body has been read completely, before any path of the loop can skip the record (`continue`) — which is how the model's
+`replayLoop` advances it (`replayLoop_goodEnd`). -/
+theorem gen_goodEnd_ok : Gen.Kv.loadTruncatesTornTail = true ∧ Gen.Kv.loadGoodEndCountsEveryCompleteRecord = true := by
+  decide
+
 /-- **D1 (codec round trip).** For every list of records written through the API — any keys of 1..MAX_KEY_LENGTH bytes, any
 values of 0..MAX_VALUE_LENGTH bytes (empty values and both boundaries included), any plausible expiry, any CRC function —
 the replay loop reads back exactly those records, in order, and stops exactly at the end of the file. -/
@@ -39,6 +45,47 @@ theorem D2_torn_tail (l : Lim) (hl : l.OK) (crc : Bytes → UInt32) (rs : List R
       = (rs.foldl (applyRec l) st, (rs.flatMap (encode crc)).length) := by
   have := replayLoop_records_torn l hl crc rs h r hr p q hpq hq st 0
   simpa using this
+
+/-- **load truncates only a torn tail.** For ARBITRARY log bytes (not only logs this code wrote): when the constructor succeeds,
+the log it leaves behind is exactly the longest prefix of complete frames `[totalLen:4][totalLen bytes]` of the log it found —
+`goodEnd` counts every record that was read completely, also one the replay then skips (CRC mismatch, unknown op letter, bad
+inner lengths, implausible expiry, an orphan 'X' expiry change) — and what it cut off does not start with a complete frame.
+So `load` never truncates inside or before a complete record, and records appended afterwards are read at the next load. -/
+theorem load_truncates_only_torn_tail (l : Lim) (crc : Bytes → UInt32) (fs : Fs) (lg : Bytes) (hlog : fs.log = some lg)
+    (now : Int) (st : LState) (ops : List FsOp) (h : openStore l crc fs now = .ok (st, ops)) :
+    (applyAll fs ops).log = some (lg.take (framesLen l lg)) ∧ framesLen l lg ≤ lg.length ∧
+    framesLen l (lg.drop (framesLen l lg)) = 0 := by
+  refine ⟨?_, framesLen_le l lg, framesLen_drop l lg⟩
+  unfold openStore at h
+  cases hs : loadSnapOpt l fs.snap with
+  | error e => rw [hs] at h; cases h
+  | ok st0 =>
+    rw [hs, hlog] at h
+    simp only [Except.ok.injEq, Prod.mk.injEq] at h
+    obtain ⟨_, hops⟩ := h
+    have hg := replayLoop_goodEnd l crc lg st0 0
+    simp only [Nat.zero_add] at hg
+    rw [hg] at hops
+    have hle := framesLen_le l lg
+    by_cases hlt : framesLen l lg < lg.length
+    · simp only [hlt, ↓reduceIte] at hops
+      subst hops
+      simp [applyAll, FsOp.apply, Fs.set, Fs.get, hlog]
+    · simp only [hlt, ↓reduceIte] at hops
+      subst hops
+      have : framesLen l lg = lg.length := by omega
+      simp [applyAll, hlog, this]
+
+/-- the counted prefix, concretely: any sequence of complete frames with admissible lengths — WHATEVER they contain — followed by
+a strict prefix of one more frame is cut exactly at the end of the last complete frame -/
+theorem goodEnd_after_frames (l : Lim) (hl : l.OK) (bs : List Bytes) (h : ∀ b ∈ bs, l.ldMin ≤ b.length ∧ b.length ≤ l.ldMax)
+    (b p q : Bytes) (hb : l.ldMin ≤ b.length ∧ b.length ≤ l.ldMax) (hpq : p ++ q = frame b) (hq : q ≠ []) :
+    framesLen l (bs.flatMap frame ++ p) = (bs.flatMap frame).length := by
+  rw [framesLen_frames l hl bs h p, framesLen_torn l hl b p q hb.1 hb.2 hpq hq]; rfl
+
+/-- non-vacuity: an orphan 'X' record is a complete frame of admissible length -/
+example : Lim.gen.ldMin ≤ ((Rec.exp [0x6b] 5000).body ++ le32 0).length ∧ ((Rec.exp [0x6b] 5000).body ++ le32 0).length ≤ Lim.gen.ldMax := by
+  decide
 
 /-- **snapshot round trip.** What `compactLocked` writes, `load` reads back (version 2, any number of entries up to the
 sanity bound of `load`). -/
